@@ -208,9 +208,9 @@ def abi_tags(pfx, X, Y):
     if Y is None:
         return out
     if pfx == "cp":
-        out += ["abi3", f"cp{X}{Y}", f"cp{X}{Y}m", f"cp{X}{Y}t", f"cp{X}{Y}d", f"cp{X}{Y}dm", f"cp{X}{Y}mu", f"cp{X}{Y + 1}", f"cp{X}{Y}td"]
+        out += ["abi3", f"cp{X}{Y}", f"cp{X}{Y}m", f"cp{X}{Y}t", f"cp{X}{Y}d", f"cp{X}{Y}dm", f"cp{X}{Y}mu", f"cp{X}{Y + 1}", f"cp{X}{Y}td", f"cp{X}{Y}0", f"cp{X}{Y}2t"]
     elif pfx == "pp":
-        out += [f"pypy{X}{Y}_pp73", f"pypy_{X}{Y}", f"pp{X}{Y}", "abi3"]
+        out += [f"pypy{X}{Y}_pp73", f"pypy_{X}{Y}", f"pp{X}{Y}", "abi3", f"pypy{X}{Y}0_pp73"]
     elif pfx == "pt":
         out += [f"pyston{X}{Y}_23", "abi3"]
     else:
@@ -277,8 +277,8 @@ def oracle_c08(ctx: Ctx, n=None):
                         rank = 0
                     else:
                         rank = 2
-                        if not abi_impl.startswith(ptag):
-                            ok = False
+                        if not abi_impl.startswith(ptag) or abi_impl[len(ptag):][:1].isdigit():
+                            ok = False      # the ABI must name the same X.Y as the python tag
                         if impl is not None and abi_impl.endswith("t") != impl[1]:
                             ok = False
                     if ok:
@@ -302,6 +302,57 @@ def oracle_c08(ctx: Ctx, n=None):
         if got != exp:
             ctx.finding(f"compatibility|{pys}|{abis}", "compatibility() is not the lexicographic maximum over the product", {"py": pys, "abi": abis, "plat": plats}, exp, got)
     ctx.sample({"stream": "oracle-C08", "requires_python": ">=3.7", "tag": "py36-none", "expected": [3, 6, 0]})
+
+
+def stream_stags(ctx: Ctx):
+    """Model/Tags.v against tags.py: _evaluate_python over the tag universe x requires_python x implementation settings,
+    plus the string glue (abi normalisation, tag rendering) and parse_wheel_tags"""
+    import coqrun
+    import specgen as sg
+    from dep_logic.tags import EnvSpec
+    from dep_logic.tags.tags import parse_wheel_tags
+    rng = random.Random(ctx.seed + 71)
+    rps = rp_grid(rng, 6 if ctx.tier == "quick" else 60)
+    minors = [0, 1, 6, 8, 9, 10, 12, 20] if ctx.tier == "quick" else list(range(0, 21))
+    terms = []
+    IMPL_COQ = {None: "None", ("cpython", False): "(Some (0, false))", ("cpython", True): "(Some (0, true))", ("pypy", False): "(Some (1, false))", ("pyston", False): "(Some (2, false))"}
+    for rp in rps:
+        for impl in IMPLS:
+            spec = EnvSpec.from_spec(rp, None, impl[0] if impl else None, impl[1] if impl else False)
+            crp = sg.cspec(spec.requires_python)
+            for (pfx, X, Y) in tag_universe(minors):
+                ptag = f"{pfx}{X}{'' if Y is None else Y}"
+                for abi in abi_tags(pfx, X, Y) + ["CP%d%s" % (X, Y if Y is not None else ""), "none_x", "pypy%d%s_PP73" % (X, Y if Y is not None else "")]:
+                    if rng.random() > (0.25 if ctx.tier == "quick" else 1.0):
+                        continue
+                    try:
+                        r = spec._evaluate_python(ptag, abi)
+                    except Exception:  # noqa: BLE001
+                        continue
+                    cr = "None" if r is None else f"(Some ({r[0]}, {r[1]}, {r[2]}))"
+                    terms.append(f"TEval {crp} {IMPL_COQ[impl]} {coqrun.cstr(pfx)} {X} {'None' if Y is None else f'(Some {Y})'} {coqrun.cstr(abi)} {cr}")
+    for abi in ["none", "abi3", "cp39", "cp39m", "pypy39_pp73", "pypy_39", "pyston38_23", "CP39", "PyPy39_pp73", "pypypy3", "pystonpypy_1", "x_pypy", "_", "", "pypyston", "cp310t", "pypy310"]:
+        a = abi.split("_", 1)[0].replace("pypy", "pp").replace("pyston", "pt").lower()
+        terms.append(f"TAbiImpl {coqrun.cstr(abi)} {coqrun.cstr(a)}")
+    for (pfx, X, Y) in [("cp", 3, 10), ("py", 3, None), ("pp", 2, 7), ("cp", 3, 0), ("py", 2, 20)]:
+        terms.append(f"TPyTag {coqrun.cstr(pfx)} {X} {'None' if Y is None else f'(Some {Y})'} {coqrun.cstr(pfx + str(X) + ('' if Y is None else str(Y)))}")
+    names = ["foo-1.0-py3-none-any.whl", "foo-1.0-1-cp39.cp310-abi3.cp39-manylinux_2_17_x86_64.manylinux2014_x86_64.whl", "foo-1.0-py3-none-any.zip", "foo-1.0-py3-none.whl",
+             "a-b-c-d-e-f-g.whl", ".whl", "x.whl", "protobuf-5.27.2-py3-none-manylinux_2_31_armv7l.whl", "x-1-py3-none-macosx_10_9_intel.whl", "foo-1.0--py3-none-any.whl",
+             "foo-1.0-py3-none-any.whl.whl", "----.whl", "-----.whl", "a-b-c.d-e..f-g.whl", "whl", "foo-1-py3-none-win32.wh"]
+    for fn in names:
+        try:
+            a, b, c = parse_wheel_tags(fn)
+            r = "(Ret (%s, %s, %s))" % tuple("[" + "; ".join(coqrun.cstr(t) for t in x) + "]" for x in (a, b, c))
+        except Exception as e:  # noqa: BLE001
+            r = f"(Raise {type(e).__name__})"
+        terms.append(f"TWheel {coqrun.cstr(fn)} {r}")
+    total, bad, errs = coqrun.eval_cases(terms, f"{ctx.prop}-stags", mod="Platform Tags Corr CorrTags", casety="tcase", runner="run_tcases", shard=300)
+    ctx.count("S-tags", total)
+    if errs:
+        ctx.broke("correspondence", "S-tags (evaluation failed)", "\n".join(errs[:3]))
+    if bad:
+        ctx.broke("correspondence", "S-tags: Model/Tags.v vs tags.py", f"{len(bad)} of {total} cases differ; first: {terms[bad[0]][:500]}")
+    ctx.sample({"stream": "S-tags", "case": terms[len(terms) // 2][:300]})
 
 
 # ------------------------------------------------------------------------------ C16
